@@ -336,10 +336,16 @@ class Prop(SeqProp):
                 if isinstance(e, (KeyboardInterrupt, SystemExit)):
                     raise
                 r = f"err {err_name(e)}"
+            donor_err = None
             if op != "init" and donor[0] is not None and drng.random() < 0.5:
-                poke_donor()
+                try:
+                    poke_donor()
+                except Exception as e:  # noqa: an ordinary operation on a numeric key never raises
+                    donor_err = err_name(e)
             out.append(r if r == "bad-op" else r + " " + dump())
-            if not donor_ok():
+            if donor_err is not None:
+                out[-1] = f"source-object-of-the-copy-construction raised {donor_err} on an ordinary operation; " + out[-1]
+            elif not donor_ok():
                 out[-1] = "source-object-of-the-copy-construction-changed " + out[-1]
         return out
 
